@@ -742,7 +742,7 @@ func main() {
 		return
 	}
 	r := hx.NewRng(a.Seed)
-	n := a.N(150)
+	n := a.N(50)
 	for k := 0; k < n; k++ {
 		genMem(r, false, false)
 		genMem(r, k%3 == 0, k%4 == 0)
